@@ -80,6 +80,8 @@ pub enum QCorrupt {
     /// the k-th entry count (modulo) replaced by a count far beyond the number of lines in the file
     /// (`which` selects 10^9, 10^12, 2^62, 2^64-1): the listed entries end prematurely
     CountBeyondFile(u32, u8),
+    /// the k-th index token of the entry lines (modulo) replaced by 0 (indices are 1-based)
+    IndexZero(u32),
 }
 
 /// what a rendered line is, for corruption targeting and the truncation oracle
@@ -94,15 +96,16 @@ pub enum LineKind {
     EntryCount,
     /// a line whose first `n` tokens are required, the last of them a floating-point number
     Value,
-    Entry,
+    /// an entry line; the payload is the number of leading index tokens
+    Entry(u8),
     Trailing,
 }
 
 pub struct Rendered {
     pub text: String,
     /// 1-based physical line number of the corrupted token, if any
-    /// number of count lines (all), of entry-count lines, of value lines: the targets of the one-token corruptions
-    pub kinds: (usize, usize, usize),
+    /// number of count lines (all), of entry-count lines, of value lines, of index tokens on entry lines: the targets of the one-token corruptions
+    pub kinds: (usize, usize, usize, usize),
     pub corrupt_line: Option<usize>,
     /// the error may be reported at the corrupted line or at any later line (a count that promises more entries
     /// than the file has lines is noticed where the entries stop)
@@ -268,7 +271,7 @@ impl QpModel {
                 for toks in $items.iter() {
                     noise(&mut rng, &mut lines);
                     let t = tail(&mut rng, "|");
-                    lines.push((format!("{}{}", toks.join(sep), t), LineKind::Entry));
+                    lines.push((format!("{}{}", toks.join(sep), t), LineKind::Entry((toks.len() - 1) as u8)));
                 }
             }};
         }
@@ -361,6 +364,24 @@ impl QpModel {
                 corrupt_line = Some(li + 1);
                 corrupt_line_is_lower_bound = true;
             }
+            Some(QCorrupt::IndexZero(k)) => {
+                let mut idx: Vec<(usize, usize)> = vec![];
+                for (i, (_, kind)) in lines.iter().enumerate() {
+                    if let LineKind::Entry(n) = kind {
+                        for j in 0..*n as usize {
+                            idx.push((i, j));
+                        }
+                    }
+                }
+                if !idx.is_empty() {
+                    let (li, j) = idx[*k as usize % idx.len()];
+                    let sepc = if lay.tab { '\t' } else { ' ' };
+                    let mut toks: Vec<String> = lines[li].0.split(sepc).map(|t| t.to_string()).collect();
+                    toks[j] = "0".into();
+                    lines[li].0 = toks.join(&sepc.to_string());
+                    corrupt_line = Some(li + 1);
+                }
+            }
             Some(QCorrupt::Number(k)) => {
                 // number tokens: the value of every Value line; the last required token of Entry lines that end in a number
                 let mut idx: Vec<usize> = vec![];
@@ -393,6 +414,7 @@ impl QpModel {
             lines.iter().filter(|(_, k)| matches!(*k, LineKind::Count | LineKind::EntryCount)).count(),
             lines.iter().filter(|(_, k)| *k == LineKind::EntryCount).count(),
             lines.iter().filter(|(_, k)| *k == LineKind::Value).count(),
+            lines.iter().map(|(_, k)| if let LineKind::Entry(n) = k { *n as usize } else { 0 }).sum(),
         );
         Rendered { text, kinds, corrupt_line, corrupt_line_is_lower_bound, last_required_start, n_lines: lines.len() }
     }
